@@ -250,7 +250,11 @@ class Lib:
     def construct(self, ex, name, args, kwargs, st, node):
         if name in GRAPH_CLASSES and not args and not kwargs:
             ex.used_lib.add(f"{name}() -> empty graph")
-            return empty_graph(name)
+            g = empty_graph(name)
+            if name == "BayesianNetwork":
+                g.fields["cpds"] = Coll("list", Opaque, None, items=[])
+                g.fields["__opaque__"] = {"add_cpds": OpaqueFn("add_cpds", Opaque, pure=False)}
+            return g
         if name == "Independencies" and not args and not kwargs:
             return Obj("Independencies", {"independencies": Coll("list", IA, None, items=[])})
         if name in ("MarkovNetwork", "UndirectedGraph") and len(args) == 1 and not kwargs:
